@@ -134,8 +134,15 @@ u8_t runcrypt::verify(size_t fsize)
   fseek(fin, FILE_IV_MARK, SEEK_SET);
   if (!hmachandle.cmphmac(header.gethtype(), key, fin, hash, fsize))
     return 2;
-  else
-    return 0;
+  // the tag does not cover the number of streams: a file written for another thread count (or cut to an odd length by
+  // whoever holds the key) has no whole number of blocks behind the IV area of this one, and must not reach the pipeline
+  fseek(fin, 0, SEEK_END);
+  const long body = ftell(fin) - (long)FILE_TEXT_MARK(threads_num);
+  if (body < 16)
+    return 1;
+  if ((body & 0xf) != 0)
+    return 2;
+  return 0;
 }
 
 /*################################
